@@ -564,6 +564,19 @@ def gen_runs(rng, thorough, cmds_per_mode):
     # cache warm-up with a transform: second run must not start the program for cached files
     # (a command string no other run uses: the cache tree is keyed by it, so the first run of the pair is really cold)
     runs.append({"kind": "group", "transform": "head -c 100000 $IN", "in_place": 0, "no_copy": 0, "extra": ["--cache"], "label": "cache_warm", "warm": True})
+    # unusable / missing $TMPDIR x working directory inside / outside the scanned tree x $IN / $OUT / stdin:
+    # the unchanged code rejects the transform ("Failed to create temporary directory") and touches nothing
+    combos = [(t, c, cmd) for t in ("below_file", "dangling", "missing") for c in ("tree", "base")
+              for cmd in ("cat $IN", "tee $OUT", "cat", "dd if=$IN of=$OUT")]
+    fixed = [("below_file", "tree", "cat $IN"), ("dangling", "tree", "tee $OUT"), ("missing", "tree", "dd if=$IN of=$OUT")]
+    rest = [x for x in rng.shuffle(combos) if x not in fixed]
+    for t, c, cmd in fixed + (rest if thorough else rest[:4]):
+        runs.append({"kind": "group", "transform": cmd, "in_place": 0, "no_copy": 0, "extra": rng.choice([[], [], ["-o", "@OUT@"], ["--cache"]]),
+                     "label": "tmpdir_" + t, "tmpdir": t, "cwd": c, "root": rng.choice([".", "abs"])})
+    # usable $TMPDIR, fclones started from inside the tree
+    for cmd, ip, nc in (("cat $IN", 0, 0), ("true $IN $OUT", 0, 1)) + ((("rewrite.sh $IN", 1, 0), ("cat", 0, 0)) if thorough else ()):
+        runs.append({"kind": "group", "transform": cmd, "in_place": ip, "no_copy": nc, "extra": [], "label": "cwd_in_tree", "cwd": "tree",
+                     "root": rng.choice([".", "abs"])})
     dopts = [[], ["--priority", "newest"], ["--no-lock"], ["-o", "@OUT@"], ["--rf-over", "2"], ["--keep-name", "*a*"],
              ["--path", "**/dir0*/**"], ["--no-check-size"], ["--priority", "most-nested", "--priority", "oldest"], ["-H"]]
     for op in (["remove"], ["link"], ["link", "--soft"], ["dedupe"], ["move", "@MOVEDIR@"]):
@@ -601,8 +614,27 @@ class Job:
         self.report = None
         self.nrun = 0
 
-    def env(self):
-        return {"TMPDIR": self.tmp, "XDG_CACHE_HOME": self.cache, "HOME": self.home,
+    def tmp_for(self, run):
+        """$TMPDIR of this run. Unusable variants: `below_file` (a path below a regular file: ENOTDIR even for root),
+        `dangling` (a symlink to nowhere), `missing` (does not exist yet: create_dir_all creates it — usable)."""
+        k = run.get("tmpdir", "ok")
+        n = self.nrun
+        if k == "ok":
+            return self.tmp
+        if k == "below_file":
+            blocker = os.path.join(self.base, "blocker_%d" % n)
+            open(blocker, "w").write("not a directory\n")
+            return os.path.join(blocker, "t")
+        if k == "dangling":
+            link = os.path.join(self.base, "dangling_%d" % n)
+            os.symlink(os.path.join(self.base, "nowhere_%d" % n, "x"), link)
+            return link
+        if k == "missing":
+            return os.path.join(self.base, "missing_%d" % n, "deeper")
+        raise ValueError(k)
+
+    def env(self, tmp=None):
+        return {"TMPDIR": tmp or self.tmp, "XDG_CACHE_HOME": self.cache, "HOME": self.home,
                 "PATH": self.bin + ":/usr/bin:/bin", "LANG": "C.UTF-8", "RUST_BACKTRACE": "0"}
 
     def argv(self, run):
@@ -610,6 +642,9 @@ class Job:
         sub = lambda xs: [x.replace("@OUT@", outfile).replace("@MOVEDIR@", os.path.join(self.out, "moved_%d" % self.nrun)) for x in xs]
         if run["kind"] == "group":
             root = {"abs": self.tree, "rel": "tree", "dot": "./tree/"}[self.root_style]
+            if run.get("cwd") == "tree":        # fclones is started from inside the scanned tree
+                root = run.get("root", ".")
+                root = self.tree if root == "abs" else root
             a = [self.fclones, "group", root] + sub(run.get("extra", []))
             if run.get("transform") is not None:
                 a += ["--transform", run["transform"]]
@@ -635,14 +670,16 @@ class Job:
         """Run fclones once (under strace) and evaluate every oracle. Returns a result dict."""
         self.nrun += 1
         argv, stdin_file = self.argv(run)
+        tmp_run = self.tmp_for(run)
+        cwd = self.tree if run.get("cwd") == "tree" else self.base
         tdir = os.path.join(self.base, "trace_%d" % self.nrun)
         shutil.rmtree(tdir, ignore_errors=True)
         os.makedirs(tdir)
         cmd = ["strace", "-f", "-ff", "-y", "-qq", "-s", "65536", "-e", "trace=" + TRACE_SET, "-o", os.path.join(tdir, "t")] + argv
         stdin = open(stdin_file, "rb") if stdin_file else subprocess.DEVNULL
-        res = {"argv": argv, "stdin": stdin_file, "problems": []}
-        proc = subprocess.Popen(cmd, env=dict(os.environ, **self.env()), stdin=stdin, stdout=subprocess.PIPE,
-                                stderr=subprocess.PIPE, cwd=self.base, start_new_session=True)
+        res = {"argv": argv, "stdin": stdin_file, "problems": [], "cwd": cwd, "TMPDIR": tmp_run}
+        proc = subprocess.Popen(cmd, env=dict(os.environ, **self.env(tmp_run)), stdin=stdin, stdout=subprocess.PIPE,
+                                stderr=subprocess.PIPE, cwd=cwd, start_new_session=True)
         try:
             so, se = proc.communicate(timeout=timeout)
             res["rc"] = proc.returncode
@@ -670,11 +707,17 @@ class Job:
                                     "scanned tree changed: " + ", ".join("%s %r" % (a, bytes.fromhex(p)) for a, p in diff[:6]),
                                     {"diff": diff[:40]}))
         # --- direct oracle 2: nothing left in $TMPDIR; dry runs create nothing but the -o file
-        left = sorted(os.listdir(self.tmp))
+        left = sorted(os.listdir(tmp_run)) if os.path.isdir(tmp_run) else []
         if left:
             res["problems"].append(("temp_left_behind", "entries left in $TMPDIR after the run: %r" % left[:5], {"left": left}))
             for n in left:
-                shutil.rmtree(os.path.join(self.tmp, n), ignore_errors=True)
+                shutil.rmtree(os.path.join(tmp_run, n), ignore_errors=True)
+        if run.get("tmpdir") == "dangling" and os.path.lexists(os.path.join(self.base, "nowhere_%d" % self.nrun)):
+            res["problems"].append(("write_outside_allowed_places", "the target of the dangling $TMPDIR symlink was created", None))
+        # a temp dir anywhere else fclones could think of: the working directory and the directory of the binary
+        strays = [n for n in os.listdir(cwd) if n.startswith(".fclones") or n.startswith("fclones-")]
+        if strays and cwd != self.tree:
+            res["problems"].append(("temp_left_behind", "temp entries left in the working directory: %r" % strays[:5], {"left": strays}))
         if run["kind"] == "dedupe":
             mv = [x for x in os.listdir(self.out) if x.startswith("moved_")]
             if mv:
@@ -684,11 +727,11 @@ class Job:
         if res["rc"] is not None and res["rc"] not in (0, 1):
             res["problems"].append(("fclones_crashed", "exit status %r: %s" % (res["rc"], res["stderr"][-300:]), None))
         # --- the trace
-        tr = analyse_trace(tdir, "t", os.fsencode(self.base), self.fclones)
+        tr = analyse_trace(tdir, "t", os.fsencode(cwd), self.fclones)
         res["nspawn"] = tr["nspawn"]
         res["ntids"] = tr["ntids"]
         treeb = os.fsencode(os.path.realpath(self.tree))
-        tmpb = os.fsencode(os.path.realpath(self.tmp))
+        tmpb = os.fsencode(os.path.abspath(tmp_run))
         cacheb = os.fsencode(os.path.realpath(self.cache))
         outb = os.fsencode(os.path.realpath(self.out))
 
@@ -714,6 +757,10 @@ class Job:
                 if p.startswith(b"/dev/") or p.startswith(b"/proc/"):
                     continue
                 m = re.match(rb"^" + re.escape(tmpb) + rb"/fclones-[^/]+(/[^/]+)?$", p)
+                if not m and kind == "mkdir" and (tmpb == p or tmpb.startswith(p + b"/")) and run.get("tmpdir", "ok") != "ok" \
+                        and (ev["ret"] != 0 or run.get("tmpdir") == "missing"):
+                    classes["Tmp"] += 1        # create_dir_all walking up the ancestors of an unusable / missing $TMPDIR
+                    continue
                 if m:
                     classes["Tmp"] += 1
                     per_tmp.setdefault(p, []).append((kind, ev["ret"]))
@@ -746,7 +793,8 @@ def model_plan(model, runs):
         cache = 1 if "--cache" in r.get("extra", []) else 0
         out = 1 if "-o" in r.get("extra", []) else 0
         if r["kind"] == "group" and r.get("transform") is not None:
-            lines.append("plan %d %d %d %d %s" % (r.get("in_place", 0), r.get("no_copy", 0), cache, out, toks_string(r["transform"])))
+            lines.append("plan %d %d %d %d %s%s" % (r.get("in_place", 0), r.get("no_copy", 0), cache, out, toks_string(r["transform"]),
+                                                    " failmk" if r.get("tmpdir") in ("below_file", "dangling") else ""))
         elif r["kind"] == "group":
             lines.append("plan 0 0 %d %d none" % (cache, out))
         else:
@@ -832,13 +880,15 @@ def render_model_args(command, subs):
     return out
 
 
-def plan_correspondence(ctx, model, tree_dir, files, tmpdir, thorough):
+def plan_correspondence(ctx, model, tree_dir, files, tmpdir, thorough, failmk=False):
+    """failmk: tmpdir is unusable (below a regular file): Transform::new must fail with the temp-dir error after the
+    validation of the command, and create nothing"""
     cases = []
-    for cmd in PLAN_COMMANDS + [" "]:
+    for cmd in (PLAN_COMMANDS[:8] if failmk else PLAN_COMMANDS) + [" "]:
         for ip in (0, 1):
             for nc in (0, 1):
                 cases.append((cmd, ip, nc, ctx.rng.choice(files)))
-    mlines = core.run_lines(model, ["plan %d %d 0 0 %s" % (ip, nc, toks_string(cmd)) for cmd, ip, nc, _ in cases])
+    mlines = core.run_lines(model, ["plan %d %d 0 0 %s%s" % (ip, nc, toks_string(cmd), " failmk" if failmk else "") for cmd, ip, nc, _ in cases])
     casefile = os.path.join(ctx.scratch, "ro_cases.txt")
     with open(casefile, "w") as f:
         for cmd, ip, nc, fp in cases:
@@ -855,7 +905,8 @@ def plan_correspondence(ctx, model, tree_dir, files, tmpdir, thorough):
         ctx.count()
         m = parse_model(ml)
         toks = toks_string(cmd)
-        ctx.distinct(("plan", cmd, ip, nc), True)
+        ctx.distinct(("plan", cmd, ip, nc, failmk), True)
+        ctx.bump("plan_TMPDIR", "below a regular file" if failmk else "ok")
         ctx.bump("plan_combination", "in=%d out=%d in_place=%d no_copy=%d" % ("I" in toks, "O" in toks, ip, nc))
         ctx.bump("plan_outcome", m["err"] or "ok")
         case = {"layer": "plan", "command": cmd, "in_place": ip, "no_copy": nc, "file": fp, "model": ml, "impl": im,
@@ -900,6 +951,8 @@ def judge(ctx, tree_id, spec, run, res, mline, pending_corr, job):
         toks = toks_string(run["transform"])
         ctx.bump("transform_mode", "in=%d out=%d in_place=%d no_copy=%d" % ("I" in toks, "O" in toks, run.get("in_place", 0), run.get("no_copy", 0)))
         ctx.bump("command_behaviour", label)
+        ctx.bump("TMPDIR", run.get("tmpdir", "ok"))
+        ctx.bump("cwd", "inside the scanned tree" if run.get("cwd") == "tree" else "outside")
         nontrivial = m["err"] is None
     elif run["kind"] == "group":
         ctx.bump("plain_group_options", " ".join(x for x in run.get("extra", []) if x.startswith("-")) or "(none)")
@@ -908,7 +961,8 @@ def judge(ctx, tree_id, spec, run, res, mline, pending_corr, job):
         ctx.bump("dry_run_options", " ".join(x for x in run["opts"] if x.startswith("-")) or "(none)")
     ctx.bump("external_programs_started", min(res.get("nspawn", 0), 20))
     ctx.distinct((tree_id, json.dumps(run, sort_keys=True)), nontrivial)
-    case = {"layer": "cli", "tree": spec, "run": run, "argv": res["argv"], "stdin_report": res["stdin"], "rc": res["rc"],
+    case = {"layer": "cli", "tree": spec, "run": run, "argv": res["argv"], "cwd": res.get("cwd"), "TMPDIR": res.get("TMPDIR"),
+            "stdin_report": res["stdin"], "rc": res["rc"],
             "stderr": res["stderr"], "root_style": job.root_style,
             "how_to_replay": "./check C07 --replay <this file>   (materialises the tree, runs argv under strace, compares inventories)"}
     for kind, what, extra in res["problems"]:
@@ -925,7 +979,8 @@ def judge(ctx, tree_id, spec, run, res, mline, pending_corr, job):
         return
     if run["kind"] == "group":
         if m["err"]:
-            if res["rc"] == 0 or "Invalid transform" not in res["stderr"]:
+            if res["rc"] == 0 or "Invalid transform" not in res["stderr"] or \
+                    (m["err"] == "tmp_dir_failed" and "Failed to create temporary directory" not in res["stderr"]):
                 pending_corr.append((case, "model: configuration error %s; implementation: rc=%r stderr=%r" % (m["err"], res["rc"], res["stderr"][-200:])))
             allowed = allowed_classes(m.get("run"))
             for cls, n in res["classes"].items():
@@ -1114,6 +1169,8 @@ def run(ctx):
         files = [os.path.join(pbase, "tree", os.fsdecode(bytes.fromhex(e["p"]))) for e in spec if e["t"] == "file"]
         before = inventory(os.path.join(pbase, "tree"))
         pending_corr += plan_correspondence(ctx, model, os.path.join(pbase, "tree"), files, os.path.join(pbase, "tmp"), not ctx.quick)
+        open(os.path.join(pbase, "blocker"), "w").write("not a directory\n")
+        pending_corr += plan_correspondence(ctx, model, os.path.join(pbase, "tree"), files, os.path.join(pbase, "blocker", "t"), not ctx.quick, failmk=True)
         d = inv_diff(before, inventory(os.path.join(pbase, "tree")))
         if d:
             ctx.violation({"kind": "tree_modified", "aspect": d[0][0]}, "the tree changed while only Transform::new / plan / run were called: %r" % d[:5],
